@@ -92,12 +92,39 @@ FAMILIES = {
 }
 
 
+SIMBOUNDS = "MaxD = 9 MaxGen = 3 MaxN = 3 Windows = {1, 2, 3} MaxId = 65535"
+
+
+def gen_replay(scn, d, tier, seed):
+    """U3: TLC generates behaviours of the specification (simulation mode), harness/replay.py steps them through the real classes"""
+    prof = SCN[scn][0]
+    sim = os.path.join(d, "sim"); os.makedirs(sim, exist_ok=True)
+    cfgname = "SIM_%s_%d.cfg" % (scn, os.getpid())
+    with open(os.path.join(MC, cfgname), "w") as f:
+        f.write("CONSTANTS\n  Addr = {\"A\"}\n  Profile = \"%s\"\n  Bugs = {}\n  Scn = \"%s\"\n  %s\nSPECIFICATION SimSpec\nCONSTRAINT Bound\nCHECK_DEADLOCK FALSE\n" % (prof, scn, SIMBOUNDS))
+    num, depth = (40, 30) if tier == "quick" else (600, 45)
+    try:
+        r = run_tlc("sim-" + scn, MC, "MC_Client", cfgname, workers=1, xmx="4g", timeout=1800,
+                    extra=["-simulate", "file=%s,num=%d" % (os.path.join(sim, "tr"), num), "-depth", str(depth), "-seed", str(seed)])
+    finally:
+        os.remove(os.path.join(MC, cfgname))
+    if not r["ok"]:
+        tlc_failed(r, "simulation " + scn)
+    out = run_py([os.path.join(VERIF, "harness", "replay.py"), sim, prof, d])
+    info = json.loads(out.strip().splitlines()[-1])
+    shutil.rmtree(sim, ignore_errors=True)
+    return info
+
+
 def gen_families(pid, w, n, seed, tier):
-    """runs the walk driver once per family; returns the list of family directories"""
+    """runs the drivers of every family of the property; returns the list of family directories"""
     dirs = []
-    for k, (fam, share) in enumerate(FAMILIES.get(pid, [("mixed", 1.0)])):
+    fams = list(FAMILIES.get(pid, [("mixed", 1.0)])) + [("replay:" + scn, 0) for scn in U1[pid][0][:2] if scn != "twoaddr"]
+    for k, (fam, share) in enumerate(fams):
         d = os.path.join(w, fam.replace(":", "_"))
-        if fam.startswith("enum:"):
+        if fam.startswith("replay:"):
+            gen_replay(fam[7:], d, tier, seed * 101 + k)
+        elif fam.startswith("enum:"):
             run_py([os.path.join(VERIF, "harness", "enum_driver.py"), d, fam[5:], tier, str(seed * 101 + k)])
         else:
             run_py([os.path.join(VERIF, "harness", "walk.py"), d, str(max(10, int(n * share))), str(seed * 101 + k), fam])
@@ -119,9 +146,16 @@ def combine(w, dirs, profs=("pub", "sub", "both")):
                     if not os.path.exists(path):
                         continue
                     fidx = json.load(open(os.path.join(d, p + ".idx.json")))
+                    base = len(idx)       # trace numbers inside meta (twin / reference traces) are relative to the driver's own file
                     with open(path) as f:
                         for line in f:
-                            out.write(line); pout.write(line)
+                            pout.write(line)
+                            if base and '"meta"' in line and '"ref":0' not in line:
+                                r = json.loads(line)
+                                if r["meta"].get("ref"):
+                                    r["meta"]["ref"] += base
+                                line = json.dumps(r, separators=(",", ":")) + "\n"
+                            out.write(line)
                     for k, (a, b) in enumerate(fidx):
                         idx.append([a + n, b + n]); pidx.append([a + pn, b + pn]); src.append([fam, p, k + 1])
                     if fidx:
@@ -259,7 +293,7 @@ def main(pid, tier, seed, replay=None):
     acc, rej, rmon = run_mon(pid, trace, index, "mon-" + pid)
     if len(acc) + len(rej) != len(idx):
         raise Machinery("TraceMon judged %d+%d of %d traces" % (len(acc), len(rej), len(idx)))
-    conf_ok, div = (0, []) if pid in ("C03", "C19") else run_conf(w, ("both",) if tier == "quick" else ("pub", "sub", "both"), "conf-" + pid)
+    conf_ok, div = (0, []) if pid in ("C03", "C19") else run_conf(w, ("pub", "sub", "both"), "conf-" + pid)
     for d in div[:5]:
         print("NOTE divergence from MqttClient: profile=%s trace=%s line=%s stimulus=%s (%s)" % d)
 
